@@ -1706,3 +1706,56 @@ package stackage
 //@ safety C18
 //@ requires (r == nil || wf(r)) && okslice(x, alloc)
 //@ noframe
+
+// ---- C04: Unmarshal, per level (mode spec). Domain udom: no unmarshal policies, nested values well formed.
+
+//@ func (stack).unmarshalDefault @spec
+//@ tags C04
+//@ safety C04
+//@ requires udom() && wfs(r) && (forall k :: 1 <= k && k < len(r) ==> okelemW(cell(r, k)))
+//@ let g := scfg(r)
+//@ let label := foldS(bit(F_nodeConfig_opt[g], 0x0002), kindWord(F_nodeConfig_typ[g]))
+//@ ensures[C04:U.noerr] err == nil
+//@ ensures[C04:U.len] len(slices) == len(r) && off(slices) == 0
+//@ ensures[C04:U.label] Mem_Val[arr(slices)][0] == v_str(label)
+//@ ensures[C04:U.leaf] forall k :: 1 <= k && k < len(r) && !isStackLike(old(cell(r, k))) && !isCondLike(old(cell(r, k))) ==> Mem_Val[arr(slices)][k] == old(cell(r, k))
+//@ ensures[C04:U.nested] forall k :: 1 <= k && k < len(r) && (isStackLike(old(cell(r, k))) && stackOf(old(cell(r, k))) != nil || isCondLike(old(cell(r, k)))) ==> is_v_anys(Mem_Val[arr(slices)][k])
+//@ ensures[C04:U.zero] forall k :: 1 <= k && k < len(r) && isStackLike(old(cell(r, k))) && stackOf(old(cell(r, k))) == nil ==> Mem_Val[arr(slices)][k] == old(cell(r, k))
+//@ modifies Mem_Val[fresh], G_calls_len, G_calls_fn, G_calls_arg
+//@ loop 1 invariant 0 <= i && i <= len(r) - 1 && err == nil
+//@ loop 1 invariant fresh(arr(slices)) && okslice(slices, alloc) && off(slices) == 0 && len(slices) == i + 1
+//@ loop 1 invariant forall a :: 0 <= a && a < old(alloc) ==> Mem_Val[a] == old(Mem_Val[a])
+//@ loop 1 invariant Mem_Val[arr(slices)][0] == v_str(label)
+//@ loop 1 invariant forall k :: 1 <= k && k <= i && !isStackLike(old(cell(r, k))) && !isCondLike(old(cell(r, k))) ==> Mem_Val[arr(slices)][k] == old(cell(r, k))
+//@ loop 1 invariant forall k :: 1 <= k && k <= i && (isStackLike(old(cell(r, k))) && stackOf(old(cell(r, k))) != nil || isCondLike(old(cell(r, k)))) ==> is_v_anys(Mem_Val[arr(slices)][k])
+//@ loop 1 invariant forall k :: 1 <= k && k <= i && isStackLike(old(cell(r, k))) && stackOf(old(cell(r, k))) == nil ==> Mem_Val[arr(slices)][k] == old(cell(r, k))
+
+//@ func (Stack).Unmarshal @spec
+//@ tags C04
+//@ safety C04
+//@ requires udom() && (r == nil || wf(r))
+//@ let g := cfgOf(r)
+//@ ensures[C04:Unmarshal.noerr] err == nil
+//@ ensures[C04:Unmarshal.len] r != nil ==> len(slice) == len(hdr(r)) && off(slice) == 0 && Mem_Val[arr(slice)][0] == v_str(foldS(bit(F_nodeConfig_opt[g], 0x0002), kindWord(F_nodeConfig_typ[g])))
+//@ ensures[C04:Unmarshal.leaf] r != nil ==> forall k :: 1 <= k && k < len(hdr(r)) && !isStackLike(old(slot(r, k))) && !isCondLike(old(slot(r, k))) ==> Mem_Val[arr(slice)][k] == old(slot(r, k))
+//@ ensures[C04:Unmarshal.nil] r == nil ==> len(slice) == 0
+//@ modifies Mem_Val[fresh], G_calls_len, G_calls_fn, G_calls_arg
+
+//@ func (condition).unmarshalDefault @spec
+//@ tags C04
+//@ safety C04
+//@ requires udom() && okelemW(r.ex)
+//@ ensures[C04:CU.shape] err == nil && len(slice) == 4 && off(slice) == 0 && fresh(arr(slice))
+//@ ensures[C04:CU.fields] Mem_Val[arr(slice)][0] == v_str("CONDITION") && Mem_Val[arr(slice)][1] == v_str(r.kw) && Mem_Val[arr(slice)][2] == r.op
+//@ ensures[C04:CU.expr] !isStackLike(r.ex) ==> Mem_Val[arr(slice)][3] == r.ex
+//@ ensures[C04:CU.nested] isStackLike(r.ex) ==> is_v_anys(Mem_Val[arr(slice)][3])
+//@ modifies Mem_Val[fresh], G_calls_len, G_calls_fn, G_calls_arg
+
+//@ func (Condition).Unmarshal @spec
+//@ tags C04
+//@ safety C04
+//@ requires udom() && (r == nil || cwf(r))
+//@ ensures[C04:CUnmarshal.noerr] err == nil
+//@ ensures[C04:CUnmarshal.fields] r != nil ==> len(slice) == 4 && off(slice) == 0 && Mem_Val[arr(slice)][0] == v_str("CONDITION") && Mem_Val[arr(slice)][1] == v_str(old(F_condition_kw[r])) && Mem_Val[arr(slice)][2] == old(F_condition_op[r]) && (!isStackLike(old(F_condition_ex[r])) ==> Mem_Val[arr(slice)][3] == old(F_condition_ex[r]))
+//@ ensures[C04:CUnmarshal.nil] r == nil ==> len(slice) == 0
+//@ modifies Mem_Val[fresh], G_calls_len, G_calls_fn, G_calls_arg
